@@ -1010,6 +1010,9 @@ impl PrunePlan {
             LimitOption::Percentage(p) => p.saturating_mul(self.stats.size_sum().total()) / 100,
         };
 
+        #[cfg(rustic_core_verif)]
+        verif_hooks::record_limits(max_unused, max_repack, &self.stats.size_sum());
+
         self.repack_candidates.sort_unstable_by_key(|rc| rc.0);
         let mut resize_packs = BlobTypeMap::<Vec<_>>::default();
         let mut do_repack = BlobTypeMap::default();
@@ -1825,6 +1828,40 @@ pub mod verif_hooks {
             BlobType::Tree => tree,
             BlobType::Data => data,
         })
+    }
+
+    /// The limits `decide_repack` computed from the options (observation only; read by the harness on the
+    /// thread that ran the planner).
+    #[derive(Debug, Clone, Copy, PartialEq, Eq)]
+    pub struct RepackLimits {
+        /// tolerated unused size (`max_unused` target)
+        pub max_unused: u64,
+        /// repack size limit (`max_repack` target)
+        pub max_repack: u64,
+        /// `stats.size_sum().used` the percentage of `max_unused` refers to
+        pub used: u64,
+        /// `stats.size_sum().total()` the percentage of `max_repack` refers to
+        pub total: u64,
+    }
+
+    thread_local! {
+        static LIMITS: std::cell::Cell<Option<RepackLimits>> = const { std::cell::Cell::new(None) };
+    }
+
+    pub(super) fn record_limits(max_unused: u64, max_repack: u64, sum: &SizeStats) {
+        LIMITS.with(|l| {
+            l.set(Some(RepackLimits {
+                max_unused,
+                max_repack,
+                used: sum.used,
+                total: sum.total(),
+            }));
+        });
+    }
+
+    /// The limits recorded by the last `decide_repack` on this thread (cleared by the call).
+    pub fn take_limits() -> Option<RepackLimits> {
+        LIMITS.with(std::cell::Cell::take)
     }
 
     fn make_used(used: Vec<(BlobType, BlobId)>) -> BTreeMap<(BlobType, BlobId), u8> {
